@@ -54,6 +54,20 @@ impl Constraint for HasSlash {
     }
 }
 
+/// user types that claim each built-in name (`dup_<name>`), via one macro
+macro_rules! claim {
+    ($($id:ident => $name:literal),*) => {
+        $(pub struct $id;
+          impl Constraint for $id {
+              const NAME: &'static str = $name;
+              fn check(_: &str) -> bool { true }
+          })*
+    };
+}
+claim!(DupU16 => "u16", DupU32 => "u32", DupU64 => "u64", DupU128 => "u128", DupUsize => "usize", DupI8 => "i8", DupI16 => "i16",
+       DupI32 => "i32", DupI64 => "i64", DupI128 => "i128", DupIsize => "isize", DupF32 => "f32", DupF64 => "f64", DupBool => "bool",
+       DupIpv4 => "ipv4", DupIpv6 => "ipv6");
+
 pub type Check = fn(&str) -> bool;
 
 /// (key used in abstract ops, NAME, type name, check)
@@ -65,6 +79,13 @@ pub fn builtins() -> Vec<(&'static str, &'static str, Check)> {
 }
 
 pub const CUSTOM_KEYS: &[&str] = &["alpha", "nota", "even", "even_dup", "u8_dup", "hasslash", "name"];
+/// `dup_<builtin>`: a user type claiming the built-in's name; `re_<builtin>`: the built-in type registered a second time
+pub const BUILTIN_NAMES: &[&str] = &["u8", "u16", "u32", "u64", "u128", "usize", "i8", "i16", "i32", "i64", "i128", "isize", "f32", "f64", "bool", "ipv4", "ipv6"];
+pub fn known_key(key: &str) -> bool {
+    CUSTOM_KEYS.contains(&key)
+        || key.strip_prefix("dup_").map_or(false, |n| BUILTIN_NAMES.contains(&n))
+        || key.strip_prefix("re_").map_or(false, |n| BUILTIN_NAMES.contains(&n))
+}
 
 pub fn register<T>(router: &mut Router<T>, key: &str) -> Option<(&'static str, &'static str, Check, Result<(), ConstraintError>)> {
     macro_rules! r {
@@ -80,6 +101,13 @@ pub fn register<T>(router: &mut Router<T>, key: &str) -> Option<(&'static str, &
         "u8_dup" => r!(U8Dup),
         "hasslash" => r!(HasSlash),
         "name" => r!(oci_name::NameConstraint),
+        "dup_u8" => r!(U8Dup), "dup_u16" => r!(DupU16), "dup_u32" => r!(DupU32), "dup_u64" => r!(DupU64), "dup_u128" => r!(DupU128),
+        "dup_usize" => r!(DupUsize), "dup_i8" => r!(DupI8), "dup_i16" => r!(DupI16), "dup_i32" => r!(DupI32), "dup_i64" => r!(DupI64),
+        "dup_i128" => r!(DupI128), "dup_isize" => r!(DupIsize), "dup_f32" => r!(DupF32), "dup_f64" => r!(DupF64), "dup_bool" => r!(DupBool),
+        "dup_ipv4" => r!(DupIpv4), "dup_ipv6" => r!(DupIpv6),
+        "re_u8" => r!(u8), "re_u16" => r!(u16), "re_u32" => r!(u32), "re_u64" => r!(u64), "re_u128" => r!(u128), "re_usize" => r!(usize),
+        "re_i8" => r!(i8), "re_i16" => r!(i16), "re_i32" => r!(i32), "re_i64" => r!(i64), "re_i128" => r!(i128), "re_isize" => r!(isize),
+        "re_f32" => r!(f32), "re_f64" => r!(f64), "re_bool" => r!(bool), "re_ipv4" => r!(Ipv4Addr), "re_ipv6" => r!(Ipv6Addr),
         _ => None,
     }
 }
